@@ -268,6 +268,9 @@ func rewriteSelect(st *ast.SelectStmt) ast.Stmt {
 	if len(st.Body.List) != 2 {
 		return nil
 	}
+	if r := rewriteSelectTimeout(st); r != nil {
+		return r
+	}
 	var comm, def *ast.CommClause
 	for _, c := range st.Body.List {
 		cc := c.(*ast.CommClause)
@@ -293,6 +296,47 @@ func rewriteSelect(st *ast.SelectStmt) ast.Stmt {
 		return nil
 	}
 	return &ast.IfStmt{Cond: cond, Body: &ast.BlockStmt{List: comm.Body}, Else: &ast.BlockStmt{List: def.Body}}
+}
+
+// rewriteSelectTimeout handles `select { case <-ch: A; case <-timer.C | time.After(..) | ctx.Done(): B }`:
+// a receive on a struct{} channel guarded by a timeout/cancellation channel.
+func rewriteSelectTimeout(st *ast.SelectStmt) ast.Stmt {
+	var plain, guard *ast.CommClause
+	var ch ast.Expr
+	for _, c := range st.Body.List {
+		cc := c.(*ast.CommClause)
+		es, ok := cc.Comm.(*ast.ExprStmt)
+		if !ok {
+			return nil
+		}
+		u, ok := es.X.(*ast.UnaryExpr)
+		if !ok || u.Op != token.ARROW {
+			return nil
+		}
+		timeoutLike := false
+		switch x := u.X.(type) {
+		case *ast.CallExpr:
+			timeoutLike = true // time.After(d), ctx.Done(), time.Tick(d)
+		case *ast.SelectorExpr:
+			timeoutLike = x.Sel.Name == "C" // timer.C / ticker.C
+		}
+		if timeoutLike {
+			if guard != nil {
+				return nil
+			}
+			guard = cc
+		} else {
+			if plain != nil {
+				return nil
+			}
+			plain = cc
+			ch = u.X
+		}
+	}
+	if plain == nil || guard == nil {
+		return nil
+	}
+	return &ast.IfStmt{Cond: call("vsched", "RecvStructTimeout", ch), Body: &ast.BlockStmt{List: plain.Body}, Else: &ast.BlockStmt{List: guard.Body}}
 }
 
 func call(pkg, fn string, args ...ast.Expr) *ast.CallExpr {
